@@ -1479,16 +1479,20 @@ class ClientRequest(ClientRequestBase):
             asyncio.CancelledError: When the operation is cancelled
 
         """
-        # 100 response
-        if self._continue is not None:
-            # Force headers to be sent before waiting for 100-continue
-            writer.send_headers()
-            await writer.drain()
-            await self._continue
-
         protocol = conn.protocol
         assert protocol is not None
         try:
+            # 100 response
+            if self._continue is not None:
+                # Force headers to be sent before waiting for 100-continue
+                writer.send_headers()
+                await writer.drain()
+                # Inside the try: if a final response arrives instead of (or
+                # together with) "100 Continue", this task is cancelled here
+                # and the declared body was never sent - the connection must
+                # be closed like for any other unfinished body.
+                await self._continue
+
             await self._body.write_with_length(writer, content_length)
         except OSError as underlying_exc:
             reraised_exc = underlying_exc
